@@ -1,4 +1,4 @@
-"""Three shared lints for Python pitfalls that broke properties in the seeded rounds.  Each returns *positive* findings only (a
+"""Shared lints for Python pitfalls that broke properties in the seeded rounds.  Each returns *positive* findings only (a
 violation needs a reason that can be read off the code); anything else is silence.  Rules register them over their anchored files.
 
 shared_mutable_fill(ctx, funcs)
@@ -301,4 +301,180 @@ def late_binding_closure(ctx, funcs: Iterable[FunctionInfo]) -> List[Tuple[Funct
                 if stored:
                     out.append((f, lam, f"`{ast.unparse(lam)[:60]}` is created in a loop, reads the loop variable {sorted(captured)} and is stored for "
                                         f"later: all stored closures will see the last value of {sorted(captured)}"))
+    return out
+
+
+_COMP = (ast.ListComp, ast.DictComp, ast.SetComp, ast.GeneratorExp)
+
+
+def _bound_by_inner_scope(u: ast.Name, fnode) -> bool:
+    """the load is bound by a comprehension target or a lambda parameter, not by the function's own scope"""
+    for a in _ancestors(u):
+        if a is fnode:
+            return False
+        if isinstance(a, _COMP) and any(isinstance(x, ast.Name) and x.id == u.id for g in a.generators for x in ast.walk(g.target)):
+            return True
+        if isinstance(a, ast.Lambda) and u.id in {x.arg for x in a.args.posonlyargs + a.args.args + a.args.kwonlyargs}:
+            return True
+    return False
+
+
+def loop_scoped_value_in_later_loop(ctx, funcs: Iterable[FunctionInfo]) -> List[Tuple[FunctionInfo, ast.AST, str]]:
+    """A name read inside the body of a loop L2 while EVERY definition that reaches the read lies inside another loop L1 that is
+    already finished (L1 and L2 disjoint): each iteration of L2 sees the value of L1's last iteration (or nothing, if L1 was empty).
+    A definition outside L1 that also reaches the read (an initialisation, a re-binding in L2) silences the lint."""
+    out = []
+    for f in funcs:
+        loops = [n for n in walk_shallow(f.node) if isinstance(n, (ast.For, ast.While))]
+        if len(loops) < 2:
+            continue
+        rd = cfg = None
+        seen = set()
+        for L2 in loops:
+            for u in [n for b in L2.body for n in ast.walk(b) if isinstance(n, ast.Name) and isinstance(n.ctx, ast.Load)]:
+                inner = next((a for a in _ancestors(u) if isinstance(a, (ast.For, ast.While, ast.FunctionDef, ast.AsyncFunctionDef, ast.Lambda, ast.ClassDef))), None)
+                if inner is not L2 or u.id in seen or _bound_by_inner_scope(u, f.node):
+                    continue
+                if rd is None:
+                    cfg, rd = ctx.cfg(f), ctx.rd(f)
+                if stmt_of(cfg, u) is None:
+                    continue
+                defs = rd.defs_reaching(u)
+                if not defs or any(not isinstance(d, ast.stmt) for d in defs):
+                    continue
+                for L1 in loops:
+                    if L1 is L2 or contains(L1, L2) or contains(L2, L1) or not isinstance(L1, ast.For):
+                        continue
+                    if all(d is L1 or any(contains(b, d) for b in L1.body) for d in defs) and L1.end_lineno < L2.lineno:
+                        seen.add(u.id)
+                        out.append((f, u, f"`{u.id}` is read at line {u.lineno} inside the loop `{norm(L2)[:50]}`, but every definition that reaches it "
+                                          f"lies in the earlier, finished loop `{norm(L1)[:50]}` (line {L1.lineno}): each iteration sees the value "
+                                          f"left by that loop's last iteration"))
+                        break
+    return out
+
+
+def local_memo_key(ctx, funcs: Iterable[FunctionInfo]) -> List[Tuple[FunctionInfo, ast.AST, str]]:
+    """A per-call memo `m = {}` that is consulted with `K in m` / `K not in m` and filled with `m[K] = V` where K is ONE attribute
+    `x.a` of an object and V is computed from `x` itself (beyond `x.a`): two objects that agree on `.a` but differ otherwise share an
+    entry."""
+    out = []
+    for f in funcs:
+        local = set()
+        for n in walk_shallow(f.node):
+            if isinstance(n, ast.Assign) and len(n.targets) == 1 and isinstance(n.targets[0], ast.Name) and (
+                    (isinstance(n.value, ast.Dict) and not n.value.keys)
+                    or (isinstance(n.value, ast.Call) and isinstance(n.value.func, ast.Name) and n.value.func.id == "dict" and not n.value.args and not n.value.keywords)):
+                local.add(n.targets[0].id)
+        if not local:
+            continue
+        for n in walk_shallow(f.node):
+            if not (isinstance(n, ast.Assign) and len(n.targets) == 1 and isinstance(n.targets[0], ast.Subscript)
+                    and isinstance(n.targets[0].value, ast.Name) and n.targets[0].value.id in local):
+                continue
+            m, K = n.targets[0].value.id, n.targets[0].slice
+            if not (isinstance(K, ast.Attribute) and isinstance(K.value, ast.Name)):
+                continue
+            kt = ast.unparse(K)
+            guarded = any(isinstance(c, ast.Compare) and len(c.ops) == 1 and isinstance(c.ops[0], (ast.In, ast.NotIn))
+                          and isinstance(c.comparators[0], ast.Name) and c.comparators[0].id == m and ast.unparse(c.left) == kt
+                          for c in walk_shallow(f.node))
+            if not guarded:
+                continue
+            x = K.value.id
+            other = [u for u in ast.walk(n.value) if isinstance(u, ast.Name) and u.id == x
+                     and not (isinstance(parent(u), ast.Attribute) and parent(u).attr == K.attr)]
+            if other:
+                out.append((f, n, f"the per-call memo `{m}` is keyed by `{kt}` but `{norm(n)[:70]}` stores a value computed from `{x}` itself: "
+                                  f"another `{x}` with the same `.{K.attr}` gets the first one's entry"))
+    return out
+
+
+def class_level_mutable_state(ctx, classes) -> List[Tuple[object, ast.AST, str]]:
+    """A class attribute bound to a mutable display in the class body and written THROUGH `self.<attr>` (item store, mutator call) in
+    a method while no method ever binds `self.<attr> = ...` and nothing in the package refers to it through the class
+    (`Cls.attr` / `cls.attr` / `type(self).attr`): it is used as per-instance state but is one container shared by all instances.
+    Returns (ClassInfo, class-level statement, why)."""
+    out = []
+    for c in classes:
+        for s in c.node.body:
+            tgt = val = None
+            if isinstance(s, ast.Assign) and len(s.targets) == 1 and isinstance(s.targets[0], ast.Name):
+                tgt, val = s.targets[0].id, s.value
+            elif isinstance(s, ast.AnnAssign) and isinstance(s.target, ast.Name) and s.value is not None:
+                tgt, val = s.target.id, s.value
+            if tgt is None or not _is_mutable_display(val):
+                continue
+            rebound, writes = False, []
+            family = [c] + [k for k in ctx.repo.subclasses(c, strict=True)] + [b for b in c.mro[1:] if hasattr(b, "methods")]
+            for k in family:
+                for m in k.methods.values():
+                    sn = m.self_name
+                    if not sn:
+                        continue
+                    for n in ast.walk(m.node):
+                        if isinstance(n, ast.Attribute) and n.attr == tgt and isinstance(n.value, ast.Name) and n.value.id == sn:
+                            p = parent(n)
+                            if isinstance(n.ctx, ast.Store):
+                                rebound = True
+                            elif isinstance(p, ast.Subscript) and p.value is n and isinstance(p.ctx, (ast.Store, ast.Del)):
+                                writes.append((m, n))
+                            elif isinstance(p, ast.Attribute) and p.attr in MUTATORS and isinstance(parent(p), ast.Call) and parent(p).func is p:
+                                writes.append((m, n))
+            if writes and not rebound:
+                # referenced through a class (`Cls.attr`, `cls.attr`, `type(self).attr`) anywhere in the package: shared on purpose
+                fam_names = {k.name for k in family} | {"cls"}
+                via_class = False
+                for mod in ctx.repo.by_rel.values():
+                    for n in ast.walk(mod.tree):
+                        if isinstance(n, ast.Attribute) and n.attr == tgt and (
+                                (isinstance(n.value, ast.Name) and n.value.id in fam_names)
+                                or (isinstance(n.value, ast.Attribute) and n.value.attr in fam_names | {"__class__"})
+                                or (isinstance(n.value, ast.Call) and isinstance(n.value.func, ast.Name) and n.value.func.id == "type")):
+                            via_class = True
+                if via_class:
+                    continue
+                m, n = writes[0]
+                out.append((c, s, f"`{c.name}.{tgt}` is created once in the class body (`{norm(s)[:50]}`) and written through `self.{tgt}` in "
+                                  f"`{m.qualname}` (line {n.lineno}); no method binds `self.{tgt}` and nothing refers to it through the class, "
+                                  f"so what is used as per-instance state is one container shared by all instances"))
+    return out
+
+
+def _is_none_default_lookup(c) -> bool:
+    if isinstance(c, ast.Call) and isinstance(c.func, ast.Attribute) and not c.keywords:
+        none2 = len(c.args) == 2 and isinstance(c.args[1], ast.Constant) and c.args[1].value is None
+        return (c.func.attr == "get" and (len(c.args) == 1 or none2)) or (c.func.attr == "pop" and none2)
+    return False
+
+
+def truthiness_of_optional_lookup(ctx, funcs: Iterable[FunctionInfo]) -> List[Tuple[FunctionInfo, ast.AST, str, ast.AST]]:
+    """Sites where the result of `d.get(k)` / `d.get(k, None)` / `d.pop(k, None)` is tested by TRUTHINESS (`lookup or default`,
+    `if name:` / `x if name else y` for a local bound to such a lookup): "absent" and "present but falsy (0, 0.0, empty)" are not told
+    apart.  Whether that is a defect depends on the key's value domain, so this is NOISY on the whole package (about a dozen legitimate
+    option lookups on /repo): callers filter by the role of the key.  Returns (f, site, why, lookup call)."""
+    out = []
+    for f in funcs:
+        lookups = {}
+        for n in walk_shallow(f.node):
+            if isinstance(n, ast.BoolOp) and isinstance(n.op, ast.Or) and _is_none_default_lookup(n.values[0]):
+                out.append((f, n, f"`{ast.unparse(n)[:70]}` falls back to the default for every falsy stored value", n.values[0]))
+            if isinstance(n, ast.Assign) and len(n.targets) == 1 and isinstance(n.targets[0], ast.Name) and _is_none_default_lookup(n.value):
+                lookups.setdefault(n.targets[0].id, []).append(n)
+        if not lookups:
+            continue
+        for n in walk_shallow(f.node):
+            tests = []
+            if isinstance(n, (ast.If, ast.IfExp, ast.While)):
+                t = n.test
+                t = t.operand if isinstance(t, ast.UnaryOp) and isinstance(t.op, ast.Not) else t
+                tests = [t] + (list(t.values) if isinstance(t, ast.BoolOp) else [])
+            elif isinstance(n, ast.BoolOp) and isinstance(n.op, ast.Or):
+                tests = [n.values[0]]
+            for t in tests:
+                t = t.operand if isinstance(t, ast.UnaryOp) and isinstance(t.op, ast.Not) else t
+                if isinstance(t, ast.Name) and t.id in lookups:
+                    d = lookups[t.id][0]
+                    out.append((f, n, f"`{t.id}` = `{ast.unparse(d.value)[:50]}` is tested by truthiness at line {n.lineno}: a present but falsy "
+                                      f"value is treated as absent", d.value))
     return out
